@@ -176,15 +176,18 @@ def destOf : Tok → Option CfgDest
   | .run => some .run | .done => some .done | .fresh t => some (.fresh t) | .badProto t => some (.badProto t)
   | _ => none
 
-/-- creation of an instance: `Set(tree)` cancels a removal, `getConfig` takes the stored config -/
+/-- creation of an instance: `Set(tree)` cancels a removal (that it stores the tree again when it has been
+released since the lookup is part of `taken` below), `getConfig` takes the stored config -/
 def created (s : Srv) (to : Tok) : Srv :=
   let s1 := { s with armed := upd s.armed (treeOf to) false }
   match destOf to with
   | some d => { s1 with cfgHas := upd s1.cfgHas d false }
   | none => s1
 
-/-- the `transmitMux` region for a message whose tree is present, then the reader goroutine -/
-def deliver (s : Srv) (to : Tok) (frm : Frm) (b : Body) : Out × Srv :=
+/-- the `transmitMux` region for a message whose tree was found, then the reader goroutine — for a state in
+which nothing is parked for the message's tree (`hasPendingMsg` says no): every `TransmitMsg` of a flush, and
+`deliver` below once the parked messages have been taken out -/
+def deliverIn (s : Srv) (to : Tok) (frm : Frm) (b : Body) : Out × Srv :=
   match to with
   | .none => (.ignored, s)                       -- unreachable: refused before
   | .zero => (.ignored, s)                       -- tree Z is never present
@@ -206,6 +209,39 @@ def deliver (s : Srv) (to : Tok) (frm : Frm) (b : Body) : Out × Srv :=
       (.ignored, clean { created s (.badProto t) with protoFailed := upd s.protoFailed t true } t)
   | .badProtoNew t =>
     (.ignored, clean { created s (.badProtoNew t) with junkMarks := s.junkMarks + 1 } t)
+
+/-- does `TransmitMsg` reach `treeStorage.Set` / `hasPendingMsg`, i.e. does it create an instance (whether or
+not `newProtocol` then succeeds)? -/
+def creating (s : Srv) : Tok → Bool
+  | .done => !s.doneMark && !s.doneLive
+  | .run => !s.run
+  | .fresh t => !s.fresh t
+  | .badProto t => !s.protoFailed t
+  | .badProtoNew _ => true
+  | _ => false
+
+/-- `TransmitMsg` of a flush goroutine (the list it works on has been taken out of `pendingMsg` before) -/
+def transmitFoundIn (s : Srv) (to : Tok) (frm : Frm) (b : Body) : Out × Srv :=
+  deliverIn { s with armed := upd s.armed (treeOf to) false } to frm b
+
+def flushIn (s : Srv) : List (Tok × Frm × Body) → Srv
+  | [] => s
+  | (to, frm, b) :: l => flushIn (transmitFoundIn s to frm b).2 l
+
+/-- the creation path, `Set` and `hasPendingMsg`/`checkPendingMessages` (overlay.go:183-189, /repo fafcac0):
+the tree the caller holds is stored — a no-op when it is still there, but it may have been released, and
+requested again, since the lookup — and what is parked for it is taken out of the list by the flush goroutine -/
+def taken (s : Srv) (t : TRef) : Srv :=
+  { s with slot := upd s.slot t .present, armed := upd s.armed t false, parked := upd s.parked t [] }
+
+/-- the `transmitMux` region for a message whose tree was found.  When an instance is created, the messages
+parked for the tree meanwhile are given to `TransmitMsg` one by one by the flush goroutine once the creating
+call has returned (it needs `transmitMux`); with nothing parked no goroutine is started (`flushIn s [] = s`). -/
+def deliver (s : Srv) (to : Tok) (frm : Frm) (b : Body) : Out × Srv :=
+  if creating s to then
+    let r := deliverIn (taken s (treeOf to)) to frm b
+    (r.1, flushIn r.2 (s.parked (treeOf to)))
+  else deliverIn s to frm b
 
 /-- `TransmitMsg` for a message whose tree is present: `getAndRefresh` cancels a scheduled removal -/
 def transmitFound (s : Srv) (to : Tok) (frm : Frm) (b : Body) : Out × Srv :=
@@ -308,6 +344,29 @@ def runEnvs (s : Srv) : List Env → Srv
   | [] => s
   | e :: es => runEnvs (process s e).2 es
 
+/-- The window of /repo fafcac0, as one event: the protocol message `(to, frm, b)` has found its tree `t` (no
+instance is using it: its removal was due) and, before the message reaches `transmitMux`, the cleaning routine
+removes the tree and the envelopes `es` are handled (a message for `t` among them is parked and makes the
+server request `t` again; the answer may even arrive); then the first message goes on with the tree it holds.
+When the message does not get past the lookup, or an instance uses the tree, there is no window. -/
+def window (s : Srv) (to : Tok) (frm : Frm) (b : Body) (es : List Env) : Out × Srv :=
+  let t := treeOf to
+  if b = .garbage ∨ to = .none ∨ s.slot t ≠ .present ∨ listedOn s t = true then process s (.proto to frm b)
+  else
+    -- `getAndRefresh` and the routine's `cancelDeletion` / `delete`
+    let s1 := { s with slot := upd s.slot t .absent, armed := upd s.armed t false }
+    deliver (runEnvs s1 es) to frm b
+
+/-- the same on the code before /repo fafcac0: the creation stored the tree and did not look at the parked messages -/
+def windowOld (s : Srv) (to : Tok) (frm : Frm) (b : Body) (es : List Env) : Out × Srv :=
+  let t := treeOf to
+  if b = .garbage ∨ to = .none ∨ s.slot t ≠ .present ∨ listedOn s t = true then process s (.proto to frm b)
+  else
+    let s1 := { s with slot := upd s.slot t .absent, armed := upd s.armed t false }
+    let s2 := runEnvs s1 es
+    -- `Set(tree)` was there, the flush was not
+    deliverIn (if creating s2 to then { s2 with slot := upd s2.slot t .present, armed := upd s2.armed t false } else s2) to frm b
+
 namespace Drv
 
 structure State where
@@ -408,6 +467,16 @@ def stormEnvs : Nat → List Env
   | 0 => []
   | n + 1 => .proto (.badProtoNew .K) .member .m3 :: .treeMarshal ⟨.R, .roK, .emptyChildren⟩ :: stormEnvs n
 
+/-- the groups of tokens that follow a `|` each -/
+def splitBarGo : List String → List String → List (List String)
+  | [], cur => [cur]
+  | x :: xs, cur => if x = "|" then cur :: splitBarGo xs [] else splitBarGo xs (cur ++ [x])
+
+def splitBar : List String → Option (List (List String))
+  | [] => some []
+  | "|" :: rest => some (splitBarGo rest [])
+  | _ => none
+
 /-- `state <idle|midrun|afterdone> <mode>` sets up the server state; every other line is one envelope -/
 def step (st : State) (toks : List String) : State × String :=
   match toks with
@@ -418,6 +487,11 @@ def step (st : State) (toks : List String) : State × String :=
     match n.toNat? with
     | some n => let x := runEnvs st.s (stormEnvs n); ({ s := x }, obs .ok x)
     | none => (st, "bad-op")
+  | "window" :: t :: f :: b :: rest =>
+    -- `window <to> <from> <body> | <envelope> | <envelope> …`
+    match tok t, frm f, body b, (splitBar rest).bind (·.mapM parse) with
+    | some t, some f, some b, some es => let r := window st.s t f b es; ({ s := r.2 }, obs r.1 r.2)
+    | _, _, _, _ => (st, "bad-op")
   | _ =>
     match parse toks with
     | some e => let r := process st.s e; ({ s := r.2 }, obs r.1 r.2)
